@@ -93,7 +93,7 @@ class C11(CheckBase):
                 pass
             sb.reset({img: case['_img'], 'out': None})
             argv = ['dfs', '--file', img] + case.get('globals', []) + case['cmd']
-            r = ctx.sk.run(sb, ctx.exe('rel', 'dfs'), argv, faults=faults, stdout_kind=case['stdout_kind'])
+            r = ctx.sk.run(sb, ctx.exe('rel', 'dfs'), argv, faults=faults, stdout_kind=case['stdout_kind'], want_log=ref)
         else:
             files = {'out': None}
             argv = ['bbcbasic_to_text']
@@ -116,9 +116,20 @@ class C11(CheckBase):
                 else:
                     argv += ['p.bbc']
             sb.reset(files)
-            r = ctx.sk.run(sb, ctx.exe('rel', 'bbcbasic_to_text'), argv, stdin=stdin, faults=faults, stdout_kind=case['stdout_kind'])
+            r = ctx.sk.run(sb, ctx.exe('rel', 'bbcbasic_to_text'), argv, stdin=stdin, faults=faults, stdout_kind=case['stdout_kind'], want_log=ref)
         out.add_run(r, ref=ref)
         r['snapshot'] = sb.snapshot('out')
+        if ref:
+            # where each write to each target ends in the fault-free run: tells whether a later fault at byte K
+            # surfaces in the middle of the run or only in the last write (the flush at exit / at close)
+            ends = {}
+            for ln in r.get('log', '').split('\n'):
+                parts = ln.split(' ')
+                if len(parts) >= 7 and parts[1] == 'write' and parts[-1].lstrip('-').isdigit() and int(parts[-1]) > 0:
+                    e = ends.setdefault(parts[2], [])
+                    e.append((e[-1] if e else 0) + int(parts[-1]))
+            r['write_ends'] = ends
+            r.pop('log', None)
         return r
 
     def resolve_k(self, spec, length):
@@ -190,8 +201,13 @@ class C11(CheckBase):
             out.sig(case['tool'], cmdname, tk, kind, flt['errno'] if kind != 'wshort' else '-', case['stdout_kind'], r.exit_class(), r['log_hash'])
             # where did the failure surface?
             if kind in ('wfail', 'wfail_once'):
-                log_last = 'exit-flush' if r.accepted(target) == flt['k']['abs'] and flt['k']['abs'] > 0 and length - flt['k']['abs'] < 4096 else 'mid-run'
-                out.probe('surfaced-' + log_last)
+                ends = ref.get('write_ends', {}).get(target, [])
+                k = flt['k']['abs']
+                last_start = ends[-2] if len(ends) >= 2 else 0
+                where = 'in-last-write(exit-flush-or-close)' if k >= last_start else 'mid-run'
+                if any(e == k for e in ends[:-1]):
+                    where = 'exactly-between-two-writes'
+                out.probe('surfaced-' + where)
             if case['stdout_kind'] == 'tty':
                 out.probe('line-buffered-stdout')
             if kind == 'closefail':
